@@ -7,7 +7,7 @@ from vf.core import Ob
 TARGETS = ['pytezos.michelson.macros.expand_macro', 'pytezos.michelson.macros.expand_*', 'pytezos.michelson.macros.build_pxr_tree/traverse_pxr_tree',
            'pytezos.michelson.instructions.* (execution of the expansion)']
 STUBS = ['format_stdout -> no-op']
-BOUNDS = {'quick': 'CMPop IFop IFCMPop ASSERT ASSERT_op ASSERT_CMPop ASSERT_NONE/SOME/LEFT/RIGHT FAIL IF_SOME IF_RIGHT; DI{2..5}P, DU{2..5}P; every P[PAI]+R / UNP..R tree with <= 4 leaves; '
+BOUNDS = {'quick': 'CMPop IFop IFCMPop ASSERT ASSERT_op ASSERT_CMPop ASSERT_NONE/SOME/LEFT/RIGHT FAIL IF_SOME IF_RIGHT; DI{2..5}P, DU{2..5}P; every P[PAI]+R / UNP..R tree with <= 5 leaves (thorough: 6); '
                    'C[AD]{2..3}R, SET_C[AD]{1..3}R, MAP_C[AD]{1..3}R; with and without annotations; all stack values symbolic (unbounded ints, bools)',
           'thorough': 'PAIR trees with <= 5 leaves; C[AD]{2..4}R'}
 OUTSIDE = ['annotation placement of macros other than the PAIR trees', 'longer macro names']
@@ -396,7 +396,7 @@ def obligations(tier):
     for n in range(2, 6):
         add(f'D{"I" * n}P', {'family': 'DIP', 'arg': n}, f'stack of {n + 1} symbolic values')
         add(f'D{"U" * n}P', {'family': 'DUP', 'arg': n}, f'stack of {n} symbolic values')
-    for name, tree in pair_trees(4 if q else 5):
+    for name, tree in pair_trees(5 if q else 6):
         add(f'{name}+UN{name}', {'family': 'PXR', 'arg': name, 'tree': tree}, 'symbolic leaves; the tree built and UNPxR o PxR = identity')
         obs.append(Ob(f'{name}/annotation-placement', 'bvx', sym_pxr_annots, conc_pxr_annots, {'arg': name, 'n': _n_leaves(tree)}, timeout=t,
                       bounds='the first k field annotations (k solver-chosen, 0..number of leaves) go to the first k leaves of the tree, in order', targets=TARGETS))
